@@ -1,4 +1,6 @@
 import SeqIoModel.Proofs.ParallelInvariants
+import SeqIoModel.Proofs.FastaHistory
+import SeqIoModel.Proofs.AbstractReader
 /-!
 # C07 – parallel processing delivers every record set exactly once with its own result
 
@@ -9,7 +11,7 @@ The recorded traces of the real code are accepted by this model on every run (co
 -/
 
 namespace SeqIo.Thm.C07
-open SeqIo.Par
+open SeqIo SeqIo.Par
 
 /-- no batch reaches the consumer twice, and only batches the reader produced -/
 theorem delivered_exactly_once (c : Cfg) (s : St) (hT : 0 < c.T) (hQ : 0 < c.Q) (h : Reach c s) :
@@ -49,6 +51,30 @@ theorem per_record_outputs {R D : Type} (work : R → D → D) (initD : D) (out 
       (recs.zipIdx).map (fun p => (p.1, work p.1 ((out[p.2]?).getD initD))) ∧
     recs.length ≤ (recycleZip work initD out recs).length :=
   ⟨consumerZip_spec work initD out recs, recycleZip_length work initD out recs⟩
+
+/-- Link from record sets to records: `fill_data` of a FASTA reader is `read_record_set`; the batches
+it produces (any number of calls) are consecutive segments of S's records – concatenated they are
+exactly the first records of the input, in order, each once.  Together with `delivered_exactly_once`
+and `drained_complete` (every batch reaches a draining consumer exactly once): every record of the
+input reaches the consumer exactly once, with the records inside a set in file order. -/
+theorem fasta_batches_partition_records (inp : List UInt8) (cap : Nat) (hcap : 3 ≤ cap) (pol : Pol)
+    (hpol : SeqIo.Fasta.PolGrows pol) (script : List SeqIo.ReadEv) (hs : SeqIo.FillProofs.NoFail script)
+    (chunk n : Nat) :
+    SeqIo.Fasta.Hist.deliveredRecs (SeqIo.Fasta.Hist.items inp) SeqIo.Fasta.Hist.aInit
+        (List.replicate n (SeqIo.Fasta.Hist.Op.set 0 none))
+        (SeqIo.Fasta.Hist.runM (SeqIo.Fasta.Hist.mkMSt inp cap pol script chunk)
+          (List.replicate n (SeqIo.Fasta.Hist.Op.set 0 none))) =
+      ((SeqIo.Fasta.Hist.items inp).recs.take
+        (SeqIo.Fasta.Hist.deliveredCounts (List.replicate n (SeqIo.Fasta.Hist.Op.set 0 none))
+          (SeqIo.Fasta.Hist.runM (SeqIo.Fasta.Hist.mkMSt inp cap pol script chunk)
+            (List.replicate n (SeqIo.Fasta.Hist.Op.set 0 none))))).map SeqIo.Fasta.Hist.view := by
+  have hns : SeqIo.Fasta.Hist.SeekFree (List.replicate n (SeqIo.Fasta.Hist.Op.set 0 none)) := by
+    intro op hop
+    rw [List.eq_of_mem_replicate hop]
+    rfl
+  obtain ⟨a', _, _, h3⟩ := SeqIo.Fasta.Hist.runA_delivers hns
+    (SeqIo.Fasta.Hist.fasta_history_accepted inp cap hcap pol hpol script hs chunk _)
+  simpa [SeqIo.Fasta.Hist.aInit] using h3
 
 /-- non-vacuity: a concrete schedule of a two-worker configuration reaches a state with a delivery -/
 def exampleCfg : Cfg :=
